@@ -189,7 +189,8 @@ def cases(tier, seed):
         if not gaps:
             continue
         k = rng.choice(gaps)
-        bad = rng.choice(["@", "#", "$", "~", "`", "?", "\x01", "\x7f", "12q", "0x1g", "'ab'", '"\\q"'])
+        bad = rng.choice(["@", "#", "$", "~", "`", "?", "\x01", "\x7f", "12q", "0x1g", "'ab'", '"\\q"', '"a\x7fb"', '"\x07"', "'\x7f'",
+                          '"tab\there"', '"\\u{0000041}"', '"\\x4"'])
         toks.insert(k, " " + bad + " ")
         yield {"kind": "invalid_lexeme", "data": "".join(toks), "expect": "reject_lex", "meta": bad}
 
